@@ -287,3 +287,23 @@ Section WithInt.
     f_equal. apply map_ext. intros i. apply enumerate_index_exact.
   Qed.
 End WithInt.
+
+(* ---------- repetition: the exact length or an error, never a wrong length *)
+Lemma repeat_len_exact I (n : T I) len : canonical I n = true -> 0 <= len <= max_int64 ->
+  repeat_len I len n =
+    if len =? 0 then Ok 0
+    else if negb (in_int32 (value I n)) then Err
+    else if value I n <? 1 then Ok 0
+    else if maxAlloc <=? len * value I n then Err else Ok (len * value I n).
+Proof.
+  intros Hn Hl. unfold repeat_len. destruct (len =? 0) eqn:L0; [reflexivity|].
+  rewrite (AsInt32_ok I n Hn). destruct (in_int32 (value I n)) eqn:R; [|reflexivity]. cbn [negb].
+  set (i := value I n) in *. destruct (i <? 1) eqn:P; [reflexivity|]. cbv zeta.
+  rewrite (wrapu64_id len) by (rng; lia). rewrite (wrapu64_id i) by (rng; lia).
+  destruct (Z_lt_le_dec (len * i) 18446744073709551616) as [B|B].
+  - assert (B' : 0 <= len * i < 18446744073709551616) by (split; [nia|assumption]).
+    rewrite (Z.div_small _ _ B'), (Z.mod_small _ _ B'). cbn [Z.eqb negb orb]. reflexivity.
+  - assert (Q : 1 <= len * i / 18446744073709551616) by (apply Z.div_le_lower_bound; lia).
+    assert (NZ : (len * i / 18446744073709551616 =? 0) = false) by lia. rewrite NZ. cbn [negb orb].
+    assert (M : (maxAlloc <=? len * i) = true) by (unfold maxAlloc; lia). rewrite M. reflexivity.
+Qed.
